@@ -59,7 +59,7 @@ TRUSTED = [
     "distinct; the snapshot makes deleting while iterating legal), `[(key, f(A[key], B[key])) for key in set(A).intersection(B)]` = "
     "Py.interWith f A B (set order abstracted), `next(iteritems(d))` under `len(d) == 1` = head, operator.truediv and / = Py.truediv "
     "(ZeroDivisionError iff the divisor == 0), hasattr(self, '_hash') / getattr(self, '_hash', False) = the model's `hashed` flag, an int "
-    "meeting a number = PyNum.int; for __pow__: the exponent is a number of integral value (Int) and kind `ek` (int / bool / float), `other == 0` / `k * other` / `other - 1` act on the value, `v ** other` = Py.pow (ZeroDivisionError iff 0 ** negative, else the model's powNum), `[x] * count` = Py.rep (TypeError for a float count, [] for a count <= 0), `reduce(operator.mul, L + [self])` = Py.reduceMul (the object self itself for an empty L, else the left-nested product), `x.copy()` = py_copy x none; for __call__: the flag `horner` is decided per kind ("auto" / True / False), `not d` = isEmpty, `self.is_polynomial()` = isPolynomial, `self.terms()` / `self.terms(sort=True, reverse=True)` = sortAsc / sortDesc of the items (integer powers: sort='auto' sorts, the `except TypeError` handler is dead), `number ** int` = PyNum.powInt and is accepted only after a dominating `if value == 0: return` (0 ** negative raises otherwise; `value = thub(value, n)` keeps the fact), `reduce(step, pairs)` = Py.reduce1 (accepted only for a sequence known to be non-empty), nested def = lambda, `sum(gen)` = foldl (+) from the int 0; the definitions of ALV/Model/C07Src.lean (InitData, Py.thub, Py.truediv, Py.interWith, Py.next, Py.pow, Py.rep, Py.reduceMul, Py.toPowRes, Py.reduce1) are "
+    "meeting a number = PyNum.int; for __pow__: the exponent is a number of integral value (Int) and kind `ek` (int / bool / float), `other == 0` / `k * other` / `other - 1` act on the value, `v ** other` = Py.pow (ZeroDivisionError iff 0 ** negative, else the model's powNum), `[x] * count` = Py.rep (TypeError for a float count, [] for a count <= 0), `reduce(operator.mul, L + [self])` = Py.reduceMul (the object self itself for an empty L, else the left-nested product), `x.copy()` = py_copy x none; for __call__: the flag `horner` is decided per kind ('auto' / True / False), `not d` = isEmpty, `self.is_polynomial()` = isPolynomial, `self.terms()` / `self.terms(sort=True, reverse=True)` = sortAsc / sortDesc of the items (integer powers: sort='auto' sorts, the `except TypeError` handler is dead), `number ** int` = PyNum.powInt and is accepted only after a dominating `if value == 0: return` (0 ** negative raises otherwise; `value = thub(value, n)` keeps the fact), `reduce(step, pairs)` = Py.reduce1 (accepted only for a sequence known to be non-empty), nested def = lambda, `sum(gen)` = foldl (+) from the int 0; the definitions of ALV/Model/C07Src.lean (InitData, Py.thub, Py.truediv, Py.interWith, Py.next, Py.pow, Py.rep, Py.reduceMul, Py.toPowRes, Py.reduce1) are "
     "that reading; (4) that PolyMeta wires __neg__ / __pos__ / the reflected dunders to __unary__ / __rbinary__ with operator.neg / pos / "
     "add / sub / mul (AbstractOperatorOverloaderMeta: property C01's translator T1).  The differential tie runs the SAME model "
     "functions against the real class, so a wrong reading shows there",
